@@ -175,4 +175,19 @@ class C09(Spec):
         return genops.gen_packed(rng, tier)
 
 
-PROPS = {"C09": C09(), "C11": C11(), "C02": C02(), "C03": C03(), "C13": C13(), "C16": C16(), "C01": C01(), "C04": C04(), "C05": C05(), "C12": C12()}
+class C08(Spec):
+    lean_modules = ["Varint.Props.C08"]
+    diff_is_violation = True
+    rule = ("histories of 6-40 operations on two bitmaps (add, remove, half-open add/remove ranges incl. longer than 4096 "
+            "on non-empty sets, clear, clone, bulk add, or/and/xor/andnot, encode+decode, swap), seeded near 4096 members "
+            "and with run containers; after EVERY step cardinality, isEmpty, toArray, ascending iteration and membership "
+            "probes of both bitmaps are compared with 65536-bit reference sets; operands of binary ops checked unchanged")
+
+    def gen(self, rng, tier):
+        return genops.gen_bitmap(rng, tier)
+
+    def relevant_keys(self, op):
+        return ["r", "ca", "cb", "ha", "hb"]
+
+
+PROPS = {"C08": C08(), "C09": C09(), "C11": C11(), "C02": C02(), "C03": C03(), "C13": C13(), "C16": C16(), "C01": C01(), "C04": C04(), "C05": C05(), "C12": C12()}
